@@ -1,0 +1,8 @@
+//go:build !verif
+
+package lang
+
+// verifStep is a no-op unless the package is built with the verif tag
+func (e *Evaluator) verifStep() error {
+	return nil
+}
